@@ -374,6 +374,10 @@ Definition on_write (m : mst) (origin : Z) (o : sop) (acked : bool) (s s' : stor
                 let m := if (Z.eqb name cRetry || Z.eqb name cContinue) && Z.eqb (fget m 11 id) 0
                             && negb (Z.eqb st 0) && negb (Z.eqb st (i_status i0))
                          then add_viol m 11 2 id else m in
+                (* every eligible target the watcher read has been re-armed *)
+                let m := if (Z.eqb name cRetry || Z.eqb name cContinue) && existsb (fun t => Z.eqb (fget m 30 t) 1) targets
+                         then add_viol m 11 5 id else m in
+                let m := fold_left (fun acc t => fset acc 30 t 0) targets m in
                 let m := if Z.eqb name cCancel
                          then let hit := filter (fun t => existsb (fun p => Z.eqb (fst p) t) (m_alive m)) targets in
                               set_cancelreq m (hit ++ m_cancelreq m)
@@ -396,6 +400,7 @@ Definition on_write (m : mst) (origin : Z) (o : sop) (acked : bool) (s s' : stor
                           && Z.eqb (t_gid r0) (t_gid r) && Z.eqb (t_ins r0) (t_ins r)
                           && list_eqb Z.eqb (t_deps r0) (t_deps r) && Z.eqb (t_timeout r0) (t_timeout r) in
                 let m := if ok then m else add_viol m 11 1 (t_id r) in
+                let m := fset m 30 (t_id r) 0 in
                 fset (fset m 13 (t_ins r) 0) 11 (t_ins r) (fget m 11 (t_ins r) + 1)
             | None => add_viol m 11 3 (t_id r)
             end
@@ -537,6 +542,17 @@ Definition mstep0 (m : mst) (ev : sx) : mst :=
                                end
                            | None => acc
                            end) recs m
+                       else m
+                   | _, _ => m
+                   end in
+          (* C11: the command watcher's read of the targeted eligible tasks - each task it returns is owed a
+             re-arming write before the command may be cleared *)
+          let m := match o, reply with
+                   | OListTasks f, L [I 6; L recs] =>
+                       if Z.eqb origin 2 && negb (Z.eqb fault 1)
+                          && match tf_ids f with [] => false | _ => true end
+                          && match tf_status f with [] => false | _ => true end
+                       then fold_left (fun acc x => match trec_of_sx x with Some r1 => fset acc 30 (t_id r1) 1 | None => acc end) recs m
                        else m
                    | _, _ => m
                    end in
